@@ -78,7 +78,7 @@ def rule_m1(ctx: Ctx) -> None:
                         if cn and len(cn) == 3 and cn[1] == attr and cn[0] in (cname,) and cn[2] in ("clear", "pop", "popitem", "update", "setdefault", "__setitem__", "__delitem__"):
                             hit = node
                     if hit is not None and not any(f2 is s[0] for s in sites):
-                        ctx.violation("C13-M1", f2, hit, f"additional writer of the memo table {cname}.{attr} outside its compute-on-miss site")
+                        ctx.violation("C13-M1", f2, hit, f"additional writer of the memo table {cname}.{attr} outside its compute-on-miss site", robust=True)
 
 
 def analyse_memo_site(ctx: Ctx, pur: Purity, ci: ClassInfo, fi: FuncInfo, attr: str) -> None:
@@ -114,10 +114,10 @@ def analyse_memo_site(ctx: Ctx, pur: Purity, ci: ClassInfo, fi: FuncInfo, attr: 
         raise AnalysisError(f"{fi.where}: miss branch without value/store")
     # key agreement
     if unparse(store.targets[0].slice) != unparse(key):
-        ctx.violation("C13-M1", fi, store, f"memo stored under key {unparse(store.targets[0].slice)} but looked up under {unparse(key)}")
+        ctx.violation("C13-M1", fi, store, f"memo stored under key {unparse(store.targets[0].slice)} but looked up under {unparse(key)}", robust=True)
         return
     if not (isinstance(store.value, ast.Name) and store.value.id == var):
-        ctx.violation("C13-M1", fi, store, f"memo stores {unparse(store.value)} instead of the computed value `{var}`")
+        ctx.violation("C13-M1", fi, store, f"memo stores {unparse(store.value)} instead of the computed value `{var}`", robust=True)
         return
     if not (isinstance(key, ast.Name) and key.id in fi.params):
         raise AnalysisError(f"{fi.where}: memo key {unparse(key)} is not a parameter")
@@ -127,7 +127,7 @@ def analyse_memo_site(ctx: Ctx, pur: Purity, ci: ClassInfo, fi: FuncInfo, attr: 
     known = {key.id, ci.name, "frozenset", "sum", "enumerate", "tuple", "len", "int", "bool", "set", "sorted"} | bound
     extra = {x for x in free - known if fi.module.assigns.get(x) is None and x not in fi.module.imports and x not in fi.module.classes}
     if extra:
-        ctx.violation("C13-M1", fi, value, f"memoised value depends on {sorted(extra)} besides its key `{key.id}`")
+        ctx.violation("C13-M1", fi, value, f"memoised value depends on {sorted(extra)} besides its key `{key.id}`", robust=True)
         return
     reasons: List[Tuple[FuncInfo, ast.AST, str]] = []
     callees: Set[str] = set()
@@ -144,7 +144,7 @@ def analyse_memo_site(ctx: Ctx, pur: Purity, ci: ClassInfo, fi: FuncInfo, attr: 
     reasons = [r for r in reasons if attr not in r[2]]
     if reasons:
         for f2, n2, why in reasons:
-            ctx.violation("C13-M1", f2, n2, f"memoised per-permutation result is not a pure function of the permutation: {why}", path=[fi.where, f2.where])
+            ctx.violation("C13-M1", f2, n2, f"memoised per-permutation result is not a pure function of the permutation: {why}", path=[fi.where, f2.where], robust=True)
         return
     # sentinel cannot collide with a stored value
     test = unparse(miss.test)
@@ -437,7 +437,7 @@ def rule_x2(ctx: Ctx) -> None:
         raise AnalysisError(f"{props.where}: expected one `val << shift`")
     k = len(packed)
     if len(set(packed)) != k:
-        ctx.violation("C13-X2", props, props.node, f"mask packs {packed}: a test appears twice, so one of the four juxtaposition classes is never checked")
+        ctx.violation("C13-X2", props, props.node, f"mask packs {packed}: a test appears twice, so one of the four juxtaposition classes is never checked", robust=True)
     allp = ie.assigns.get("_ALL_PROPERTIES")
     if allp is None:
         raise AnalysisError("InsertionEncodablePerms._ALL_PROPERTIES vanished")
@@ -450,7 +450,7 @@ def rule_x2(ctx: Ctx) -> None:
     if allv == 2 ** k - 1:
         ctx.ok("C13-X2", ie.where, f"_ALL_PROPERTIES = {allv} = 2**{k} - 1 for {k} packed tests")
     else:
-        ctx.violation("C13-X2", ie.where, ie.assign_nodes["_ALL_PROPERTIES"], f"_ALL_PROPERTIES = {unparse(allp)} but {k} tests are packed (full mask is {2 ** k - 1})", file=ie.module.relpath)
+        ctx.violation("C13-X2", ie.where, ie.assign_nodes["_ALL_PROPERTIES"], f"_ALL_PROPERTIES = {unparse(allp)} but {k} tests are packed (full mask is {2 ** k - 1})", file=ie.module.relpath, robust=True)
     # the four tests: one specification template with two operator slots
     names = {"_is_incr_next_incr": ("<", "<"), "_is_incr_next_decr": ("<", ">"), "_is_decr_next_incr": (">", "<"), "_is_decr_next_decr": (">", ">")}
     for nm, (op1, op2) in names.items():
@@ -460,7 +460,7 @@ def rule_x2(ctx: Ctx) -> None:
         ctx.run(check_skeleton, ctx, "C13-X2", f, [spec, spec.replace("islice(", "itertools.islice(")],
                 f"{nm}: no step `later {op1} earlier` is followed by a step `later {op2} earlier`")
         if nm not in packed:
-            ctx.violation("C13-X2", props, props.node, f"{nm} is not packed into the property mask")
+            ctx.violation("C13-X2", props, props.node, f"{nm} is not packed into the property mask", robust=True)
     # rightmost / maximum folds
     rm = repo.need_method("InsertionEncodablePerms", "is_insertion_encodable_rightmost")
     mx = repo.need_method("InsertionEncodablePerms", "is_insertion_encodable_maximum")
@@ -482,7 +482,7 @@ def rule_x2(ctx: Ctx) -> None:
     if turns[rm.name]:
         raise AnalysisError(f"{rm.where}: rightmost test rotates its elements; not an idiom this rule knows")
     if len(turns[mx.name]) != 1:
-        ctx.violation("C13-X2", mx, mx.node, "topmost (maximum) test does not rotate the basis elements: it coincides with the rightmost test")
+        ctx.violation("C13-X2", mx, mx.node, "topmost (maximum) test does not rotate the basis elements: it coincides with the rightmost test", robust=True)
     else:
         call = turns[mx.name][0]
         if not call.args and not call.keywords:
@@ -496,7 +496,7 @@ def rule_x2(ctx: Ctx) -> None:
         if q % 2 == 1:
             ctx.ok("C13-X2", mx.where, f"elements are turned by an odd number ({q}) of quarter turns", call, mx)
         else:
-            ctx.violation("C13-X2", mx, call, f"topmost test turns elements by {q} quarter turns (even): the verdict coincides with the rightmost test")
+            ctx.violation("C13-X2", mx, call, f"topmost test turns elements by {q} quarter turns (even): the verdict coincides with the rightmost test", robust=True)
     # fold skeleton (each sibling against the same specification)
     ctx.run(check_fold, ctx, rm)
     ctx.run(check_fold, ctx, mx)
@@ -550,7 +550,7 @@ def check_fold(ctx: Ctx, fi: FuncInfo) -> None:
     acc = body[0].targets[0].id
     loop = body[1]
     if unparse(loop.iter) != fi.params[0]:
-        ctx.violation("C13-X2", fi, loop, f"fold iterates {unparse(loop.iter)}, not the whole basis")
+        ctx.violation("C13-X2", fi, loop, f"fold iterates {unparse(loop.iter)}, not the whole basis", robust=True)
         return
     upd, test = None, None
     for st in loop.body:
@@ -564,15 +564,15 @@ def check_fold(ctx: Ctx, fi: FuncInfo) -> None:
         raise AnalysisError(f"{fi.where}: fold update/test not recognised")
     op = upd.value.op if isinstance(upd, ast.Assign) else upd.op
     if not isinstance(op, ast.BitOr):
-        ctx.violation("C13-X2", fi, upd, f"properties are combined with {type(op).__name__}, not bitwise OR: the union over the basis is lost")
+        ctx.violation("C13-X2", fi, upd, f"properties are combined with {type(op).__name__}, not bitwise OR: the union over the basis is lost", robust=True)
         return
     t = test.test
     good = isinstance(t, ast.Compare) and len(t.ops) == 1 and isinstance(t.ops[0], ast.Eq) and {unparse(t.left), unparse(t.comparators[0])} == {acc, "InsertionEncodablePerms._ALL_PROPERTIES"}
     if not good:
-        ctx.violation("C13-X2", fi, test, f"early exit tests `{unparse(t)}`; it must require the full mask (== _ALL_PROPERTIES)")
+        ctx.violation("C13-X2", fi, test, f"early exit tests `{unparse(t)}`; it must require the full mask (== _ALL_PROPERTIES)", robust=True)
         return
     if not (len(test.body) == 1 and isinstance(test.body[0], ast.Return) and is_const(test.body[0].value, True)):
-        ctx.violation("C13-X2", fi, test, "full mask does not yield True")
+        ctx.violation("C13-X2", fi, test, "full mask does not yield True", robust=True)
         return
     operand = upd.value.right if isinstance(upd, ast.Assign) else upd.value
     if isinstance(upd, ast.Assign) and not (isinstance(upd.value.left, ast.Name) and upd.value.left.id == acc):
@@ -583,7 +583,7 @@ def check_fold(ctx: Ctx, fi: FuncInfo) -> None:
     good_operand = isinstance(operand, ast.Call) and call_name(operand) and call_name(operand)[-1] == "_insertion_encodable_properties" and len(operand.args) == 1 and (
         unparse(operand.args[0]) == lv or (isinstance(operand.args[0], ast.Call) and call_name(operand.args[0]) == (lv, "rotate")))
     if not good_operand:
-        ctx.violation("C13-X2", fi, upd, f"fold accumulates {unparse(operand)[:70]}, not the run-shape properties of each basis element")
+        ctx.violation("C13-X2", fi, upd, f"fold accumulates {unparse(operand)[:70]}, not the run-shape properties of each basis element", robust=True)
         return
     ctx.ok("C13-X2", fi.where, "fold: OR of the per-element properties over the basis, True at full mask, False at exhaustion", loop, fi)
 
@@ -785,7 +785,7 @@ def rule_m2(ctx: Ctx) -> None:
             bad.append((f2, n2, why))
         if bad:
             for f2, n2, why in bad:
-                ctx.violation("C13-M2", f2, n2, f"{e.qual} depends on / changes state outside its arguments: {why}; the verdict may depend on earlier calls", path=[e.where, f2.where])
+                ctx.violation("C13-M2", f2, n2, f"{e.qual} depends on / changes state outside its arguments: {why}; the verdict may depend on earlier calls", path=[e.where, f2.where], robust=True)
         else:
             ctx.ok("C13-M2", e.where, f"besides the reviewed memo tables the verdict reads and writes no process-wide state ({len(eff.callees)} callees examined)", e.node, e)
         ctx.dynamic.extend(eff.dynamic)
